@@ -195,6 +195,13 @@ def run_case(seed, i, tier):
         explicit = list(args)       # nothing to expand to: compare the argument forms among themselves
     forms = [("as_given", base + args, None),
              ("explicit", base + explicit, None)]
+    def respell(a):
+        # the same path spelled another way
+        r_ = t.resolve(a)
+        if r_ and r_[0] == "dir":
+            return rng.choice((a + "/", "./" + a, a + "/.", "./" + a + "/", a + "//"))
+        return rng.choice(("./" + a, a, ".//" + a))
+    forms.append(("respelled", base + [respell(a) for a in args], None))
     stdin_nl = ("\n".join(args) + ("\n" if rng.random() < 0.5 else "")).encode("utf-8")
     forms.append(("all_on_stdin", base + ["-"], stdin_nl))
     k = rng.randrange(len(explicit) + 1)
